@@ -172,8 +172,13 @@ impl PointG1 {
     /// Decode from hexadecimal format, allowing for the infinity point
     pub fn from_string_inf(val: &str) -> ClResult<Self> {
         pre_validate_point(val, 3)?;
-        let point = ECP::from_hex(val.to_string());
+        let mut point = ECP::from_hex(val.to_string());
         if is_valid_ecp(&point) {
+            if point.is_infinity() {
+                // normalise the identity: an encoding such as (0, 0, 0) would otherwise
+                // compare equal to every point (amcl's `equals` cross-multiplies by z)
+                point.inf();
+            }
             Ok(PointG1 { point })
         } else {
             Err(err_msg!("Invalid PointG1"))
@@ -330,8 +335,12 @@ impl PointG2 {
     /// Decode from hexadecimal format, allowing for the infinity point
     pub fn from_string_inf(val: &str) -> ClResult<PointG2> {
         pre_validate_point(val, 6)?;
-        let point = ECP2::from_hex(val.to_string());
+        let mut point = ECP2::from_hex(val.to_string());
         if is_valid_ecp2(&point) {
+            if point.is_infinity() {
+                // normalise the identity, see PointG1::from_string_inf
+                point.inf();
+            }
             Ok(PointG2 { point })
         } else {
             Err(err_msg!("Invalid PointG2"))
